@@ -425,6 +425,7 @@ class _MissingImportFinder:
         # Function bodies that we need to check after defining names in this
         # function scope.
         self._deferred_load_checks = []
+        self._deferred_use_marks = []
 
         # Whether we're currently in a FunctionDef.
         self._in_FunctionDef = False
@@ -1073,6 +1074,13 @@ class _MissingImportFinder:
         if symbol_needs_import(fullname, self.scopestack):
             data = (fullname, self.scopestack.clone_top(), self._lineno)
             self._deferred_load_checks.append(data)
+        elif self.unused_imports is not None:
+            # The name is bound now (and that binding has been marked as
+            # used), but the function runs later, when an enclosing scope may
+            # have rebound it, e.g. by an import further down.  Mark what it
+            # resolves to at the end as used, too.
+            data = (fullname, self.scopestack.clone_top())
+            self._deferred_use_marks.append(data)
 
     def _visit_Load_immediate(self, fullname):
         logger.debug("_visit_Load_immediate(%r)", fullname)
@@ -1130,6 +1138,9 @@ class _MissingImportFinder:
         for fullname, scopestack, lineno in self._deferred_load_checks:
             self._check_load(fullname, scopestack, lineno)
         self._deferred_load_checks = []
+        for fullname, scopestack in self._deferred_use_marks:
+            symbol_needs_import(fullname, scopestack)
+        self._deferred_use_marks = []
 
     def _scan_unused_imports(self):
         # If requested, then check which of our imports were unused.
